@@ -35,16 +35,38 @@ impl StateView for TestClient {
 pub struct Wrap {
     st: Rc<RefCell<AppState>>,
     lazy: bool,
+    /// number of times a lazy future suspends (returns Pending after waking its waker) before it acts,
+    /// as a future awaiting I/O does
+    suspensions: u32,
+}
+
+/// a future that returns Pending `n` times, waking its waker each time
+struct Yield(u32);
+impl Future for Yield {
+    type Output = ();
+    fn poll(mut self: Pin<&mut Self>, cx: &mut std::task::Context<'_>) -> std::task::Poll<()> {
+        if self.0 == 0 {
+            std::task::Poll::Ready(())
+        } else {
+            self.0 -= 1;
+            cx.waker().wake_by_ref();
+            std::task::Poll::Pending
+        }
+    }
 }
 type BoxFut<T> = Pin<Box<dyn Future<Output = T>>>;
 impl Wrap {
-    pub fn new(src: Penelope, lazy: bool) -> Self {
-        Wrap { st: Rc::new(RefCell::new(AppState::single("D", src))), lazy }
+    pub fn new(src: Penelope, kind: &str) -> Self {
+        Wrap { st: Rc::new(RefCell::new(AppState::single("D", src))), lazy: kind != "eager", suspensions: if kind == "slow" { 2 } else { 0 } }
     }
     fn go<T: 'static>(&self, f: impl FnOnce(&mut AppState) -> T + 'static) -> BoxFut<T> {
         let st = self.st.clone();
         if self.lazy {
-            Box::pin(async move { f(&mut st.borrow_mut()) })
+            let n = self.suspensions;
+            Box::pin(async move {
+                Yield(n).await;
+                f(&mut st.borrow_mut())
+            })
         } else {
             let v = f(&mut st.borrow_mut());
             Box::pin(std::future::ready(v))
@@ -143,7 +165,8 @@ pub fn observe<C: UistClient + StateView>(b: &UistBroker<C>, id: BacktestId) -> 
             format!("{} {}", bt.pos, bt.date),
             format!("{} {}", buf.len(), buf.iter().map(uist::show_order).collect::<Vec<_>>().join(" ")),
             format!("{} {}", book.len(), book.iter().map(uist::show_order).collect::<Vec<_>>().join(" ")),
-            log.len(),
+            // the exchange's own trade log, in execution order
+            format!("{} {}", log.len(), log.iter().map(uist::show_trade).collect::<Vec<_>>().join(" ")),
         )
     });
     let log = b.trades_between(&i64::MIN, &i64::MAX);
@@ -203,7 +226,7 @@ pub fn gen(seed: u64, cases: usize, flavour: &str, path: &str) {
     for _ in 0..cases {
         g.line("RESET");
         g.stats.bump("cases");
-        let client = *g.rng.pick(&["test", "test", "eager", "lazy"]);
+        let client = *g.rng.pick(&["test", "test", "eager", "lazy", "slow"]);
         g.line(&format!("CLIENT {client}"));
         g.stats.bump(&format!("client_{client}"));
         let nc = g.rng.below(4);
@@ -509,7 +532,7 @@ pub fn run(ops: &str, annot: &str, imp: &str) {
                 run_case(&mut b, id, body, &mut out);
             }
             k => {
-                let mut c = Wrap::new(src, k == "lazy");
+                let mut c = Wrap::new(src, k);
                 let id = block_on(c.init("D".to_string())).unwrap().backtest_id;
                 let mut b = block_on(UistBrokerBuilder::new().with_client(c, id).with_trade_costs(costs).build());
                 run_case(&mut b, id, body, &mut out);
